@@ -29,10 +29,10 @@ CONFIGS = {
 RECORD = {"quick": (12, 800, 12), "thorough": (40, 3000, 16)}   # traces, ops, keys
 
 
-def replay_cases(ctx, binary, cases, nkeys, tag):
+def replay_cases(ctx, binary, cases, nkeys, tag, keymap="identity"):
     results = ctx.path("results-%s.ndjson" % tag)
     shapes = ctx.path("shapes-%s.ndjson" % tag)
-    ctx.run([binary, "replay", cases, results, shapes, str(-KOFF), str(nkeys - 1 - KOFF)], timeout=1200)
+    ctx.run([binary, "replay", cases, results, shapes, str(-KOFF), str(nkeys - 1 - KOFF), keymap], timeout=1200)
     summary = None
     nviol = 0
     for r in vlib.iter_ndjson(results):
@@ -41,6 +41,8 @@ def replay_cases(ctx, binary, cases, nkeys, tag):
         elif r["kind"] == "mismatch":
             r["detail"]["mode"] = "replay"
             r["detail"]["nkeys"] = nkeys
+            r["detail"]["keymap"] = keymap
+            r["sig"]["keymap"] = keymap
             ctx.violation(r["sig"], r["detail"])
             nviol += 1
     if summary is None:
@@ -92,9 +94,14 @@ def run(ctx):
     seen = set()
     with open(all_shapes, "w") as sh:
         for label, nk, cases in case_files:
+            # the same cases once more with the keys embedded order-preservingly into the extremes of the
+            # int range (MinInt64, ..., -2, ..., MaxInt64): the contract only depends on the order of keys
+            summ2, _ = replay_cases(ctx, binary, cases, nk, label + "-x", keymap="extreme")
+            total_cases += summ2.get("cases", 0)
+            total_steps += summ2.get("steps", 0)
             summ, shapes = replay_cases(ctx, binary, cases, nk, label)
-            total_cases += summ["cases"]
-            total_steps += summ["steps"]
+            total_cases += summ.get("cases", 0)      # a summary written by the watchdog (hang) carries no counts
+            total_steps += summ.get("steps", 0)
             for line in open(shapes):
                 key = json.dumps(json.loads(line)["shape"], sort_keys=True)
                 if key not in seen:
@@ -184,7 +191,7 @@ def replay(ctx, path):
         cases = ctx.path("case.ndjson")
         with open(cases, "w") as f:
             f.write(json.dumps(d["case"]) + "\n")
-        replay_cases(ctx, binary, cases, d.get("nkeys", 16), "replay")
+        replay_cases(ctx, binary, cases, d.get("nkeys", 16), "replay", keymap=d.get("keymap", "identity"))
     elif d.get("mode") == "record":
         trace, nev, ok, bad, why = check_trace(ctx, binary, d["ntraces"], d["nops"], d["nkeys"], d["seed"], "replay")
         if not ok:
